@@ -90,7 +90,7 @@ def run(ctx):
                     return decide_all_equal([('start', a[1], v['a0']), ('end', a[2], v['a1']), ('start_point', a[3], v['p0']),
                                              ('end_point', a[4], v['p1']), ('error', a[5], Rat.sym('err')), ('min_depth', a[6], Rat.sym('md')),
                                              ('depth', a[7], 0), ('result', v['r'], Rat.sym('SEGLEN'))])
-                opts = {'globals': {('path', '_quad_available'): avail}, 'ext_hooks': {'scipy.integrate.quad': quad_hook},
+                opts = {'globals': {('*', '_quad_available'): avail}, 'ext_hooks': {'scipy.integrate.quad': quad_hook},
                         'call_hooks': {'path.segment_length': sl_hook}, 'presign': PRE}
                 if cname == 'Arc':
                     opts = arc_opts(mdl, opts)
@@ -174,11 +174,9 @@ def run(ctx):
             segs = [it.construct('path.Line', Rat.csym('A%d' % k), Rat.csym('B%d' % k)) for k in range(3)]
             p = it.construct('path.Path', *segs)
             # the length table is there and fresh (whatever helper Path.length uses to make sure of that has nothing to measure)
-            g = it.model.module('path').globals
             p.attrs['_length'] = Rat.sym('LTOT')
             p.attrs['_lengths'] = [Rat.sym('fr%d' % k) for k in range(3)]
-            p.attrs['_length_tol'] = tuple(it.eval(g[nm], Env(module=it.model.module('path'))) if nm in g else Rat.const(0)
-                                           for nm in ('LENGTH_ERROR', 'LENGTH_MIN_DEPTH'))
+            p.attrs['_length_tol'] = tuple(module_const(it, 'path', nm, Rat.const(0)) for nm in ('LENGTH_ERROR', 'LENGTH_MIN_DEPTH'))
             r = it.call_method(p, 'length', Rat.sym('TT0'), Rat.sym('TT1'))
             return r, list(calls), segs
 
